@@ -1,33 +1,60 @@
-(* C20: two overlapping first requests for one routed path where consumers attach BEFORE the other
-   registration happens, and the cameras end later.  Built on the registry specification of
+(* C20: two overlapping first requests for one routed path where consumers attach BEFORE, DURING or
+   AFTER the other registration, and the cameras end later.  Built on the registry specification of
    Model/Registry.v (C05/C03): streams 0 and 1 are the streams of the two pull clients; a pull
    client registers its stream when playStream starts (GRegist) and unregisters-and-closes it when
-   its camera ends (GUnregist); a consumer attaches with GAttach.  NO proofs here.
+   its camera ends (GUnregist); a consumer attaches with GAttach.  In the registry specification an
+   attach to a stream that is not live changes nothing; in the code (Stream.startConsume re-checks
+   the status after adding) such a consumer is released at once: [late_count] counts those attaches,
+   and [attached_total] / [closed_total] are the consumers that ever joined a stream (live or not)
+   and those whose Close must have been called.  NO proofs here.
 
-   Scenario of the replay (harness command C20repl): stream 0 is registered first and, if [attach1],
-   gets a consumer; stream 1 registers and replaces it (closing it at once when it has no consumer,
-   else only scheduling the retire task) and, if [attach2], gets a consumer; a packet on every
-   connection makes a pull client whose stream is already closed go away; then the cameras end, the
-   one of stream [if end2first then 1 else 0] first. *)
+   Scenario of the replay (harness command C20repl): stream 0 is registered first; its consumer
+   attaches [WEarly] = before the second registration's decision (before it starts, or between its
+   swap and its look at the consumer count), or [WLate] = after stream 0 has been closed as replaced
+   (right after its status changed, or after the second registration has finished); stream 1
+   registers and replaces stream 0 (closing it at once when it has no consumer, else only scheduling
+   the retire task) and, if [attach2], gets a consumer; a packet on every connection makes a pull
+   client whose stream is already closed go away; then the cameras end, the one of stream
+   [if end2first then 1 else 0] first. *)
 From Coq Require Import ZArith List Bool.
 From V Require Import Bytes Registry.
 Import ListNotations.
 Open Scope Z_scope.
 
+(* attaches to stream [i] made when it was not live (released at once), along the history *)
+Fixpoint late_count (i : nat) (sp : sstate) (ops : list gop) : Z :=
+  match ops with
+  | [] => 0
+  | o :: ops' =>
+      (match o with
+       | GAttach j _ => if Nat.eqb i j && (j <? length (sp_streams sp))%nat && negb (st_live (sp_get sp j))
+                        then 1 else 0
+       | _ => 0
+       end) + late_count i (fst (sstep sp o)) ops'
+  end.
+Definition attached_total (i : nat) (h : list gop) : Z :=
+  st_att_total (sp_get (sexec sinit h) i) + late_count i sinit h.
+Definition closed_total (i : nat) (h : list gop) : Z :=
+  released (sp_get (sexec sinit h) i) + late_count i sinit h.
+
+Inductive when := WNone | WEarly | WLate.
+Definition attached (w : when) : bool := match w with WNone => false | _ => true end.
+
 Definition repl_path : bytes := [47; 99; 50; 48; 47; 99; 97; 109].   (* "/c20/cam" *)
 
-Definition repl_base (attach1 attach2 : bool) : list gop :=
+Definition repl_base (attach1 : when) (attach2 : bool) : list gop :=
   [GNew repl_path false; GNew repl_path false; GRegist 0] ++
-  (if attach1 then [GAttach 0 false] else []) ++ [GRegist 1] ++
+  (match attach1 with WEarly => [GAttach 0 false] | _ => [] end) ++ [GRegist 1] ++
+  (match attach1 with WLate => [GAttach 0 false] | _ => [] end) ++
   (if attach2 then [GAttach 1 false] else []).
 
 (* after the packet: the pull client of a stream that is no longer live has ended *)
-Definition repl_phase1 (attach1 attach2 : bool) : list gop :=
+Definition repl_phase1 (attach1 : when) (attach2 : bool) : list gop :=
   let h := repl_base attach1 attach2 in
   if st_live (sp_get (sexec sinit h) 0) then h else h ++ [GUnregist 0].
-Definition repl_phase2 (attach1 attach2 end2first : bool) : list gop :=
+Definition repl_phase2 (attach1 : when) (attach2 end2first : bool) : list gop :=
   repl_phase1 attach1 attach2 ++ [GUnregist (if end2first then 1 else 0)%nat].
-Definition repl_phase3 (attach1 attach2 end2first : bool) : list gop :=
+Definition repl_phase3 (attach1 : when) (attach2 end2first : bool) : list gop :=
   repl_phase2 attach1 attach2 end2first ++ [GUnregist (if end2first then 0 else 1)%nat].
 
 (* the pull clients still running after a history: those whose GUnregist has not happened *)
@@ -44,18 +71,19 @@ Record pobs := {
 }.
 Definition observe (h : list gop) : pobs :=
   let sp := sexec sinit h in
-  {| po_closed1 := released (sp_get sp 0); po_closed2 := released (sp_get sp 1);
+  {| po_closed1 := closed_total 0 h; po_closed2 := closed_total 1 h;
      po_cc1 := consumers (sp_get sp 0); po_cc2 := consumers (sp_get sp 1);
      po_reg := match sp_resolve sp repl_path with Some O => 1 | Some _ => 2 | None => 0 end;
      po_running := running h |}.
 
-Definition repl_model (attach1 attach2 end2first : bool) : list pobs :=
+Definition repl_model (attach1 : when) (attach2 end2first : bool) : list pobs :=
   [observe (repl_phase1 attach1 attach2); observe (repl_phase2 attach1 attach2 end2first);
    observe (repl_phase3 attach1 attach2 end2first)].
 
 (* what the property demands of the three observations:
    - while both cameras are up there is one registered stream, the second one;
    - a pull whose camera has ended has all its consumers closed (exactly once) and none attached;
+   - a consumer that joined a stream which had already been replaced is closed (it is never attached);
    - the consumer of the registered stream whose camera is still up is not closed;
    - at the end: nothing registered, no pull client (connection, counter, goroutine) left, every
      attached consumer closed exactly once *)
